@@ -113,3 +113,6 @@ Ltac self_counted Hn Epc :=
 Ltac bools s :=
   destruct (running s) eqn:?, (paused s) eqn:?, (suspended s) eqn:?.
 
+
+Ltac fin := unf; proj; rewrite ?cnt_app, ?len_app, ?len_cons, ?len_nil in *;
+            cbn [cnt cpc_eqb tpc_eqb b2z] in *; nonneg; b2zr; try lia.
